@@ -99,13 +99,11 @@ theorem validate_good {A : Nat → Prop} {c : Chan} (h : HI A c) (n info : Nat) 
       · exact good_fail h _
       · split
         · exact good_fail h _
-        · refine ⟨?_, by intro k hk; simp at hk⟩
-          dsimp only
-          split
+        · split
           · next hn =>
             subst hn
-            exact ⟨fun m hm => Or.inl (h.1 m hm), fun _ => Or.inr rfl⟩
-          · exact ⟨fun m hm => Or.inl (h.1 m hm), fun hn => Or.inl (h.2 hn)⟩
+            exact ⟨⟨fun m hm => Or.inl (h.1 m hm), fun _ => Or.inr rfl⟩, by intro k hk; simp at hk⟩
+          · exact ⟨⟨fun m hm => Or.inl (h.1 m hm), fun hn => Or.inl (h.2 hn)⟩, by intro k hk; simp at hk⟩
     · exact good_fail h _
 
 theorem revoke_good {A : Nat → Prop} {c : Chan} (h : HI A c) (n : Nat) : Good A (revoke c n) := by
